@@ -18,7 +18,7 @@ import subprocess
 import sys
 
 VERIF = os.path.dirname(os.path.dirname(os.path.abspath(__file__)))
-ENV = dict(os.environ, GOFLAGS="-mod=mod", GOPROXY="off", GOSUMDB="off")
+ENV = dict(os.environ, GOFLAGS="-mod=mod", GOPROXY="off", GOSUMDB="off", GOTOOLCHAIN="local")
 
 
 def sh(cmd, cwd, timeout=1800, env=None):
@@ -40,19 +40,29 @@ def main():
         print(out)
         sys.exit(2)
     try:
-        demos = [f for f in glob.glob(os.path.join(src, "*")) if f.endswith("_test.go") or os.path.isdir(f)]
+        demos = [f for f in glob.glob(os.path.join(src, "*")) if f.endswith("_test.go")]
         placement = meta.get("demo_placement", "")
-        m = re.search(r"([\w./-]+_test\.go)", placement)
         demo_cmd = None
-        if m and demos:
-            rel = m.group(1)
-            rel = rel[rel.index(os.sep) + 1:] if rel.startswith("/tmp/") else rel
-            demo_file = [d for d in demos if d.endswith("_test.go")][0]
-            dst = os.path.join(wt, rel)
-            os.makedirs(os.path.dirname(dst), exist_ok=True)
-            shutil.copy(demo_file, dst)
-            names = re.findall(r"^func (Test\w+)\(", open(demo_file).read(), re.M)
-            pkgdir = os.path.dirname(rel) or "."
+        demo_dst = None
+        if demos:
+            demo_file = demos[0]
+            text = open(demo_file).read()
+            pkg = re.search(r"^package (\w+)", text, re.M).group(1)
+            base = pkg[:-5] if pkg.endswith("_test") else pkg
+            # directory: a path with a directory named in the placement note, else the directory declaring that package
+            pkgdir = None
+            for tok in re.findall(r"([\w./-]+/[\w.-]+_test\.go)", placement):
+                d = os.path.dirname(tok)
+                d = re.sub(r"^(/tmp/seed/C\d+/|\./)", "", d)
+                if os.path.isdir(os.path.join(wt, d)):
+                    pkgdir = d
+            if pkgdir is None:
+                rc0, found = sh("grep -rl --include=*.go -E '^package %s$' . | grep -v _test.go | xargs -n1 dirname | sort | uniq -c | sort -rn | head -1" % base, wt)
+                pkgdir = found.split()[-1].lstrip("./") if found.split() else "."
+                pkgdir = pkgdir or "."
+            demo_dst = os.path.join(wt, pkgdir, "zz_seed_demo_test.go")
+            shutil.copy(demo_file, demo_dst)
+            names = re.findall(r"^func (Test\w+)\(", text, re.M)
             demo_cmd = "go test -count=1 -run '^(%s)$' ./%s" % ("|".join(names), pkgdir)
         res["demo_cmd"] = demo_cmd
         if demo_cmd:
@@ -60,6 +70,7 @@ def main():
             res["demo_passes_without_patch"] = rc == 0
             if rc != 0:
                 res["demo_out_clean"] = out[-1500:]
+            os.remove(demo_dst)
         rc, out = sh("git apply %s" % os.path.join(src, "patch.diff"), wt)
         res["patch_applies"] = rc == 0
         if rc != 0:
@@ -81,10 +92,10 @@ def main():
         if rc != 0:
             res["existing_tests_out"] = out[-1500:]
         if demo_cmd:
+            shutil.copy(demos[0], demo_dst)
             rc, out = sh(demo_cmd, wt)
             res["demo_fails_with_patch"] = rc != 0
-            # remove the demonstration before the check runs (it is not part of the change)
-            os.remove(os.path.join(wt, re.search(r"([\w./-]+_test\.go)", meta.get("demo_placement", "")).group(1)))
+            os.remove(demo_dst)  # the demonstration is not part of the change
         env = dict(os.environ, VERIF_REPO=wt)
         rc, out = sh("python3 check/check.py %s --tier %s" % (prop, tier), VERIF, timeout=7200, env=env)
         res["check_exit"] = rc
